@@ -220,6 +220,11 @@ class Driver(object):
     def ask(self, req):
         self.p.stdin.write(json.dumps(req) + '\n')
         self.p.stdin.flush()
+        import select
+        r, _, _ = select.select([self.p.stdout], [], [], float(os.environ.get('VERIF_DRIVER_TIMEOUT', '300')))
+        if not r:
+            self.p.kill()
+            raise RuntimeError('Lean driver timed out on a %s request' % req.get('cmd'))
         line = self.p.stdout.readline()
         self.calls += 1
         if not line:
